@@ -1,4 +1,4 @@
-CONSTANTS W = 2  BYTE = 1  F1 = 2  F2 = 2  B = 2  BLK = 2  PRO = 1  SR = 2  MaxWords = 5  Rates = {0, 1, 2, 3}
+CONSTANTS W = 2  BYTE = 1  F1 = 2  F2 = 2  B = 2  BLK = 2  PRO = 1  SR = 2  MaxWords = 4  Rates = {0, 1, 2, 3}
 SPECIFICATION Spec
 INVARIANT Inv
 CHECK_DEADLOCK FALSE
